@@ -67,23 +67,30 @@ type Scenario struct {
 	Reader  string      `json:"reader,omitempty"`  // plain | bytereader | errorreader | bufio
 	Writer  string      `json:"writer,omitempty"`  // plain | errorwriter
 
-	Order    MapOrder           `json:"order"`
-	Dirty    *Dirty             `json:"dirty,omitempty"`
-	Sched    *simnet.Schedule   `json:"sched,omitempty"`
-	RFault   *simnet.ReadFault  `json:"rfault,omitempty"`
-	WFault   *simnet.WriteFault `json:"wfault,omitempty"`
-	Cut      int                `json:"cut,omitempty"`
-	Giant    *Giant             `json:"giant,omitempty"`
-	Input    []byte             `json:"input,omitempty"` // explicit bytes (corruption scenarios)
-	Mutation string             `json:"mutation,omitempty"`
-	Perm     []int              `json:"perm,omitempty"`     // map-entry permutation for reference-peer encodings
-	Trail    int                `json:"trail,omitempty"`    // guard bytes after the last record
-	Tasks    []TaskSpec         `json:"tasks,omitempty"`    // concurrent callers (C14)
-	Switches []Switch           `json:"switches,omitempty"` // baton schedule: at global step s run task t
-	Ops      []FileOp           `json:"ops,omitempty"`      // CLI scenarios (C19)
-	Files    map[string]string  `json:"files,omitempty"`    // workspace content before the run (C19)
-	Args     []string           `json:"args,omitempty"`
-	Extra    map[string]string  `json:"extra,omitempty"`
+	Order  MapOrder           `json:"order"`
+	Dirty  *Dirty             `json:"dirty,omitempty"`
+	Sched  *simnet.Schedule   `json:"sched,omitempty"`
+	RFault *simnet.ReadFault  `json:"rfault,omitempty"`
+	WFault *simnet.WriteFault `json:"wfault,omitempty"`
+	Cut    int                `json:"cut,omitempty"`
+	Giant  *Giant             `json:"giant,omitempty"`
+	// Reuse / Prefill: the receiving record is not fresh. It has been decoded into before:
+	// with Reuse the complete valid encoding of Value, with Prefill these bytes
+	// (UnmarshalBebop, result ignored), and is then handed to the decoder under test.
+	Reuse   bool   `json:"reuse,omitempty"`
+	Prefill []byte `json:"prefill,omitempty"`
+	// EncOps: a history of EncodeBebop calls by one or two callers onto two destinations
+	EncOps   []EncOp           `json:"enc_ops,omitempty"`
+	Input    []byte            `json:"input,omitempty"` // explicit bytes (corruption scenarios)
+	Mutation string            `json:"mutation,omitempty"`
+	Perm     []int             `json:"perm,omitempty"`     // map-entry permutation for reference-peer encodings
+	Trail    int               `json:"trail,omitempty"`    // guard bytes after the last record
+	Tasks    []TaskSpec        `json:"tasks,omitempty"`    // concurrent callers (C14)
+	Switches []Switch          `json:"switches,omitempty"` // baton schedule: at global step s run task t
+	Ops      []FileOp          `json:"ops,omitempty"`      // CLI scenarios (C19)
+	Files    map[string]string `json:"files,omitempty"`    // workspace content before the run (C19)
+	Args     []string          `json:"args,omitempty"`
+	Extra    map[string]string `json:"extra,omitempty"`
 }
 
 // Giant turns the valid encoding of the scenario's value into a strict prefix of the valid
@@ -94,6 +101,20 @@ type Scenario struct {
 type Giant struct {
 	Which int `json:"which"`
 	N     int `json:"n"`
+}
+
+// EncOp is one EncodeBebop call of record Values[Rec] onto destination Dest (0 or 1),
+// either straight onto the destination or through the ErrorWriter the caller made for that
+// destination at the start and keeps using (Held). With Inner set, ANOTHER caller's encode
+// onto the other destination runs while the At-th Write call (1-based) of this encode is
+// in progress: two encoders overlap, switching at a Write boundary - the only point where
+// a synchronous encoder can be overtaken.
+type EncOp struct {
+	Rec   int    `json:"rec"`
+	Dest  int    `json:"dest"`
+	Held  bool   `json:"held,omitempty"`
+	At    int    `json:"at,omitempty"`
+	Inner *EncOp `json:"inner,omitempty"`
 }
 
 // TaskSpec is one concurrent caller of the library (C14).
